@@ -20,7 +20,13 @@ def run(ctx):
     # random larger streams: <= 6 frames, <= 6 reads
     scripts += ctx.tlc_gen("MC_Resp", R.mc(6, 6, emit="", inv="SimEmit " + R.DESIGN_INV), "walks", simulate=(60 if q else 3000, 40))
     # the same behaviours through a socket of a live RespServer
-    live = ctx.tlc_gen("MC_Resp", R.mc(2, 2, 2 if q else 3, univ="{3,4,12,16}" if q else LIVE, live=True), "live", timeout=2400, coverage=True)
+    # ... and connections whose first frame is a 20 000 byte ECHO (kept run-length encoded in model, scripts and trace)
+    # followed by PING / inline PING (thorough: 6 followers), written in <= 3 pieces cut inside the big payload and at EVERY
+    # byte of the follower: what the connection loop does with a grown receive buffer must not depend on the chunking
+    live = ctx.tlc_gen("MC_Resp", R.mc(2, 2, 2 if q else 3, univ="{3,4,12,16}" if q else LIVE, live=True, bign=20000,
+                                        biguniv="{5,15}" if q else "{4,5,12,13,15,16}",
+                                        bigcuts="{1,16385}" if q else "{1,4096,8192,16384,16385,19999}", bigchunks=3),
+                       "live", timeout=2400, coverage=True)
     ctx.assume(R.ASSUME_GRAMMAR, R.ASSUME_LIMITS,
                "in-process runs drive RespValue::decode / handle_command / encode exactly as handle_connection does (one Deliver per "
                "socket read); the live runs cannot force the kernel to keep two writes in two reads (1.5 ms pause, TCP_NODELAY)",
